@@ -6,6 +6,7 @@ exit 0 iff every check stayed quiet.  Evidence/replays of these runs go to a scr
 import json, os, shutil, subprocess, sys, tempfile, time
 V = os.path.dirname(os.path.dirname(os.path.abspath(__file__)))
 patch = os.path.abspath(sys.argv[1])
+store = os.environ.get("BENIGN_STORE")      # id under /verif/seeded/benign/ to keep patch, notes and result
 props = sys.argv[2:] or [c["property_id"] for c in json.load(open(os.path.join(V, "MANIFEST.json")))["checks"]]
 def sh(cmd, **kw):
     return subprocess.run(cmd, shell=True, stdout=subprocess.PIPE, stderr=subprocess.STDOUT, text=True, **kw)
@@ -14,7 +15,7 @@ out = tempfile.mkdtemp(prefix="ft-bo-")
 res = {"patch": patch, "ran": []}
 try:
     assert sh(f"git -C /repo worktree add --detach {wt} HEAD").returncode == 0
-    ap = sh(f"git -C {wt} apply {patch}")
+    ap = sh(f"git -C {wt} apply --3way {patch}")
     assert ap.returncode == 0, ap.stdout
     if not os.environ.get("SKIP_BASELINE"):
         b = sh(f"FT_REPO={wt} {V}/tools/baseline_check.py")
@@ -39,4 +40,14 @@ finally:
     shutil.rmtree(out, ignore_errors=True)
 res["alarms"] = [x["check"] for x in res["ran"] if x["exit"] != 0]
 print("ALARMS:", res["alarms"])
+if store:
+    dst = os.path.join(V, "seeded", "benign", store)
+    os.makedirs(dst, exist_ok=True)
+    shutil.copy(patch, os.path.join(dst, "patch.diff"))
+    notes = os.path.join(os.path.dirname(patch), "notes.md")
+    if os.path.exists(notes):
+        shutil.copy(notes, dst)
+    res["patch"] = "patch.diff"
+    res["how"] = "tools/benign_eval.py: scratch worktree of /repo HEAD + patch, FT_REPO=<worktree> ./check <each property> --tier quick"
+    json.dump(res, open(os.path.join(dst, "result.json"), "w"), indent=1)
 sys.exit(1 if res["alarms"] else 0)
